@@ -16,3 +16,6 @@ Example from_labels_examples :
   M_from_labels val_eqb [[a; VInt 1]; [b; VInt 1]; [a; VInt 2]] = Err "ErrorInitIndex" /\
   M_from_labels val_eqb [[a; VInt 1]; [a; VInt 1]] = Err "ErrorInitIndex".
 Proof. cbv zeta. split; [reflexivity|]. split; [eexists; split; vm_compute; reflexivity|]. repeat split; reflexivity. Qed.
+
+Require Import Proofs.IxTreeOrder.
+Definition v_tree_ordered_contiguous := tree_ordered_contiguous val val_eqb val_eqb_spec.
